@@ -180,7 +180,8 @@ func rangeFact(t types.Type, term string) string {
 }
 
 func typeKey(t types.Type) string {
-	return types.TypeString(t, nil)
+	// an alias (type Index = uint32) is the same type as what it names: dynamic type tags must agree
+	return types.TypeString(types.Unalias(t), nil)
 }
 
 func mkScalar(t types.Type, s, tm string) *Val { return &Val{T: t, S: s, Tm: tm} }
